@@ -35,12 +35,69 @@ def closure(files, start):
     return seen
 
 
-def unrelated_change(rng, files, dep):
+def dependent_text(rng, obs, files, exp=None, ptr=4):
+    """definitions that *use* the observed module (a reverse dependency: the observed module still
+    neither imports nor references them): derived types with their own vftable, by-value and pointer
+    fields, functions naming its types, a type of the same name in another scope"""
+    text = files["/".join(obs) + ".pyxis"]
+    names = re.findall(r"^\s*(?:pub\s+)?type\s+(\w+)\s*\{", text, re.M)
+    enums = re.findall(r"^\s*(?:pub\s+)?enum\s+(\w+)\s*:", text, re.M)
+    if not names and not enums:
+        return None
+    n = rng.randint(0, 99)
+    out = []
+    uses = set()
+    kinds = rng.sample(["derived_vft", "derived", "fields", "fns", "same_name", "enum_field"], rng.randint(1, 3))
+    for kind in kinds:
+        if kind in ("derived_vft", "derived", "fields", "fns") and not names:
+            continue
+        t = rng.choice(names) if names else None
+        info = (exp or {}).get("types", {}).get("::".join(list(obs) + [t])) if t else None
+        if kind == "derived_vft" and info and (info.get("has_vftable") or info["align"] > ptr or info["size"] % ptr):
+            kind = "derived"
+        if kind == "derived" and any("ZzPlain" in o for o in out):
+            continue
+        if kind == "derived_vft":
+            uses.add(t)
+            out.append("pub type ZzDer%d {\n    vftable {\n        pub fn zz_f%d(&self, a: u32) -> *const %s;\n    },\n    #[base]\n    pub base: %s,\n    pub extra: *mut %s,\n}" % (n, n, t, t, t))
+        elif kind == "derived":
+            uses.add(t)
+            out.append("pub type ZzPlain%d {\n    #[base]\n    pub base: %s,\n}\npub type ZzPtrs%d {\n    pub tail: [*const %s; 2],\n}" % (n, t, n, t))
+        elif kind == "fields":
+            uses.add(t)
+            out.append(("#[align(%d)]\n" % info["align"] if info else "") + "pub type ZzHolder%d {\n    pub v: %s,\n    pub arr: [%s; %d],\n}\npub type ZzHolderP%d {\n    pub p: *mut %s,\n}" % (n, t, t, rng.randint(0, 3), n, t))
+        elif kind == "fns":
+            uses.add(t)
+            out.append("pub type ZzFn%d {\n    pub x: u32,\n}\nimpl ZzFn%d {\n    #[address(0x%x)]\n    pub fn zz_get%d(&self, a: *const %s) -> *mut %s;\n}" % (n, n, rng.randint(0x1000, 0xffffff), n, t, t))
+        elif kind == "same_name":
+            # the same name in another scope must not capture or disturb the observed module's lookups
+            t2 = rng.choice(names + enums)
+            if t2 in uses:
+                continue
+            out.append("pub type %s {\n    pub zz_only_here: [u64; %d],\n}" % (t2, rng.randint(1, 5)))
+            uses.discard(t2)
+            names = [x for x in names if x != t2]
+        elif kind == "enum_field" and enums:
+            e = rng.choice(enums)
+            uses.add(e)
+            out.append("pub type ZzEnumHolder%d {\n    pub e: %s,\n}\npub type ZzEnumPtr%d {\n    pub pe: *const %s,\n}" % (n, e, n, e))
+    if not out:
+        return None
+    return "".join("use %s::%s;\n" % ("::".join(obs), u) for u in sorted(uses)) + "\n" + "\n\n".join(out) + "\n"
+
+
+def unrelated_change(rng, files, dep, obs=None, exp=None, ptr=4):
     """returns (new files, description) or None"""
     mods = [tuple(f[:-6].split("/")) for f in files]
     others = [m for m in mods if m not in dep]
     new = dict(files)
     k = rng.random()
+    if obs is not None and rng.random() < 0.35:
+        txt = dependent_text(rng, obs, files, exp, ptr)
+        if txt is not None:
+            name = "zz_dep%d" % rng.randint(0, 99)
+            new[name + ".pyxis"] = txt
+            return new, "dependent module %s added (it imports the observed module)" % name
     if k < 0.4 or not others:
         # a brand-new module nobody imports
         name = "zz_extra%d" % rng.randint(0, 99)
@@ -58,7 +115,7 @@ def unrelated_change(rng, files, dep):
         del new[f]
         return new, "removed module " + "::".join(m)
     if k < 0.8:
-        new[f] = files[f] + "\npub type ZzAdded%d { pub a: u64, pub b: [u8; %d] }\n" % (rng.randint(0, 99), rng.randint(1, 9))
+        new[f] = files[f] + "\npub type ZzAdded%d { pub a: u32, pub b: [u8; %d] }\n" % (rng.randint(0, 99), 4 * rng.randint(1, 9))
         return new, "added a type to " + "::".join(m)
     # change sizes inside an unrelated module: append padding to its first type with a body
     t = files[f]
@@ -99,7 +156,7 @@ def runner(pid, prop, tier, seed, scratch, replay=None):
                 new[f] = files[f] + "\npub type ZzRel { pub a: u8 }\n"
                 ch = (new, "RELATED: added a type to the observed module")
             else:
-                ch = unrelated_change(rng, files, dep)
+                ch = unrelated_change(rng, files, dep, obs, exp, ptr)
             if ch is None:
                 continue
             new, what = ch
